@@ -75,6 +75,11 @@ CLAIMED = {
         text="Exploration, with the full-budget runs for every n in 10..600 (thorough ..3000) on two partitions enumerated: each pull is classified (opening / pending child / post-schedule) and checked against the reference schedule: root first, depth order, per-depth budgets floor(h_max/h) with h_max = floor(n/H_n) computed exactly, depth advance only on exhausted budget or no unopened cell, opened cell is the best unopened evaluated cell of its depth, children returned in order exactly once, no cell evaluated twice, domain centre only after exhaustion and a stable recommendation afterwards.",
         note="n >= 10; openings are observed through the recording partition subclass.",
         ref="4/C12"),
+    "C13": dict(
+        technique="property-based testing (Hypothesis) with np.random.choice wrapped in-process: the probability vector actually used and the index actually drawn are compared with the reference rank/weight rule recomputed from a harness-kept ledger",
+        text="Exploration: per pull of every generated run the ranks of every ranking depth must be a permutation ordered by the reference lower confidence value (from the ledger), the vector handed to np.random.choice must equal 1/(h r C) entry by entry and sum to one, the returned point must have been sampled from the drawn cell's descendant at the depth cap and lie in the drawn cell, and the reward must be credited exactly to that chain. The sampling law is thus decided through the weights used, not statistically.",
+        note="Binary-child partitions only (others: open finding D10). Ties in LCB to 1e-12.",
+        ref="4/C13"),
 }
 
 NOT_YET = "check not built yet in this round (planned in DESIGN.md section 4); property-based testing applies"
